@@ -22,7 +22,7 @@ Proof. intros Hc Hn. eapply core_frame; [..|exact Hc]; done. Qed.
 
 Lemma next3_mono s o : (next (base s) ≤ next (base (step3 s o).1))%positive.
 Proof.
-  destruct o as [o| | | | | | | | |].
+  destruct o as [o| | | | | | | | | | |].
   1: { cbn [step3]. pose proof (next_mono (base s) o). by destruct (step (base s) o). }
   all: match goal with |- context [step3 ?s0 ?o] => destruct (base_frame s0 o I) as [->| ->] end; cbn; lia.
 Qed.
